@@ -154,6 +154,32 @@ def explore(res, rng, n):
                      sig=('C10:coptFORM-unsigned-beta' if abs((1 - pf2) - q) <= 1e-4 else None))
 
 
+def recorded_limits(res):
+    """two recorded limitations: (a) the Nataf quadrature at |rho| >= 0.98 makes FORM inexact on linear-Gaussian problems;
+    (b) the numerical gradient uses an absolute step 1e-6, below the float spacing of Pa-sized variables"""
+    core.import_impl()
+    import numpy as np
+    from scipy import stats
+    from ffpack import rrm
+    rho = 0.99
+    g = lambda X: 0.5 + X[0] - X[1]
+    exact = 0.5 / math.sqrt(2 - 2 * rho)
+    res.evaluations += 1
+    b = rrm.hlrfFORM(2, g, [lambda X: 1.0, lambda X: -1.0], [stats.norm(), stats.norm()], [[1.0, rho], [rho, 1.0]])[0]
+    if abs(b - exact) > 1e-5 * (1 + exact):
+        fail(res, 'hlrf: beta differs from E[g]/sd[g] on a linear-Gaussian problem', {'g': '0.5 + x1 - x2', 'corr': rho, 'exact_beta': exact}, float(b),
+             sig='C10:nataf-quadrature:abs-rho-above-0.98')
+    s_ = 1e8
+    gl = lambda X: X[0] - X[1]
+    mus, sig = [3 * s_, 2 * s_], [0.3 * s_, 0.2 * s_]
+    exact2 = 1.0 / math.sqrt(0.13)
+    res.evaluations += 1
+    bn = rrm.mvalFOSM(2, gl, None, mus, sig)[0]
+    if abs(bn - exact2) > 1e-5 * (1 + exact2):
+        fail(res, 'mvalFOSM differs from the exact beta for independent normal variables (numerical gradient)', {'g': 'R - S', 'mus': mus, 'sigmas': sig, 'exact_beta': exact2},
+             float(bn), sig='C10:absolute-step-numerical-gradient:magnitude-1e8')
+
+
 def run(tier, seed):
     res = core.Result(PID, tier, seed)
     res.rule = ('random linear limit states of jointly normal variables: dimension 1-5, integer coefficients, random positive-definite '
@@ -162,6 +188,7 @@ def run(tier, seed):
     core.prove(res, PID, MODULES, clean=(tier == 'thorough'))
     n = 12 if tier == 'quick' else 300
     explore(res, random.Random(seed), n)
+    recorded_limits(res)
     res.traces = res.evaluations
     res.disagreements_checked = res.evaluations
     res.trusted += ['theorems are about the exact HL-RF step / linear algebra; convergence of the iteration, SLSQP in coptFORM and the '
